@@ -133,13 +133,23 @@ func NewWSTransport(ctx context.Context, opts WSTransportOptions) *WSTransport {
 // existing connection when one is available for the same endpoint, subprotocol,
 // headers, and init payload, dialing a new one otherwise.
 func (t *WSTransport) Subscribe(ctx context.Context, req *common.Request, opts common.Options, handler common.Handler) (func(), error) {
-	conn, err := t.getOrDial(ctx, opts)
-	if err != nil {
-		return nil, err
-	}
+	// A pooled connection can close between the lookup and the registration of the subscription
+	// (its last other subscription ended and it went idle, or the upstream dropped it). That is
+	// not a failure of this subscription: get a fresh connection, a bounded number of times.
+	const maxAttempts = 3
+	for attempt := 1; ; attempt++ {
+		conn, err := t.getOrDial(ctx, opts)
+		if err != nil {
+			return nil, err
+		}
 
-	id := xid.New().String()
-	return conn.subscribe(ctx, id, req, handler)
+		id := xid.New().String()
+		cancel, err := conn.subscribe(ctx, id, req, handler)
+		if err != nil && errors.Is(err, common.ErrConnectionClosed) && attempt < maxAttempts && ctx.Err() == nil {
+			continue
+		}
+		return cancel, err
+	}
 }
 
 // pingLoop sends periodic pings to all active connections and shuts down
